@@ -36,6 +36,22 @@ class Chooser:
         return c
 
 
+def _canon(o):
+    """Canonical form for the replay-twice comparison (rounds floats, removes negative zeros)."""
+    import numpy as np
+    if isinstance(o, np.ndarray):
+        a = np.round(o.astype(complex), 10) + 0.0
+        return ("nd", a.shape, tuple((float(x.real) + 0.0, float(x.imag) + 0.0) for x in a.reshape(-1)))
+    if isinstance(o, dict):
+        return tuple(sorted((repr(k), _canon(v)) for k, v in o.items()))
+    if isinstance(o, (list, tuple)):
+        return tuple(_canon(v) for v in o)
+    if isinstance(o, (float, complex, np.floating, np.complexfloating)):
+        z = complex(o)
+        return (round(z.real, 10) + 0.0, round(z.imag, 10) + 0.0)
+    return repr(o)
+
+
 def explore(run, bound=None, max_exec=None, check_replay=True, horizon=None):
     """Yield (choices, trace, infos, result) for every execution. `bound` = max number of non-default answers."""
     stack = [[]]
@@ -57,7 +73,7 @@ def explore(run, bound=None, max_exec=None, check_replay=True, horizon=None):
                 res2 = run(ch2)
             except HorizonExceeded:
                 res2 = "HORIZON"
-            if ch2.trace != ch.trace or repr(res2) != repr(res):
+            if ch2.trace != ch.trace or _canon(res2) != _canon(res):
                 raise ReplayDivergence(f"same schedule, different observation: {res!r} vs {res2!r}")
             first = False
         n += 1
